@@ -175,6 +175,9 @@ func (w *World) denied(name string) bool {
 	if v, ok := allowedFns[name]; ok {
 		return !v
 	}
+	if strings.HasPrefix(name, "sync.OnceFunc") || strings.HasPrefix(name, "sync.OnceValue") {
+		return false
+	}
 	p := pkgOfFuncName(name)
 	for _, d := range deniedPkgs {
 		if p == d || (strings.HasSuffix(d, "/") && strings.HasPrefix(p, d)) || strings.HasPrefix(p, d+"/") {
